@@ -1,7 +1,7 @@
 #!/usr/bin/env python3
 """Confirm behaviour-preserving refactorings produced by a sub-agent and measure false alarms.
 
-usage: tools/confirm_benign.py <Cxx>      (reads /tmp/out3_<Cxx>, uses the scratch worktree /tmp/wt3_<Cxx>)
+usage: tools/confirm_benign.py <Cxx> [--round 5]     (reads /tmp/out<R>_<Cxx>, uses the scratch worktree /tmp/wt<R>_<Cxx>; R = 3 by default)
 
 For every change_i.diff with an equiv_i.py:
   1. scratch worktree at /repo's HEAD, clean; `equiv_i.py --record` (expected results from the unmodified code);
@@ -41,7 +41,9 @@ def run_checks(wt):
 
 def main():
     pid = sys.argv[1]
-    out_dir, wt = f"/tmp/out3_{pid}", f"/tmp/wt3_{pid}"
+    rnd = sys.argv[sys.argv.index("--round") + 1] if "--round" in sys.argv else "3"   # 3: first benign round (ids -b<i>), 5: second (ids -c<i>)
+    tagc = {"3": "b", "5": "c"}.get(rnd, "x")
+    out_dir, wt = f"/tmp/out{rnd}_{pid}", f"/tmp/wt{rnd}_{pid}"
     head = sh("git -C /repo rev-parse HEAD").stdout.strip()
     sh(f"git -C {wt} checkout -q -- . && git -C {wt} checkout -q --detach {head}")
     summary = open(os.path.join(out_dir, "SUMMARY.md")).read() if os.path.exists(os.path.join(out_dir, "SUMMARY.md")) else ""
@@ -50,7 +52,7 @@ def main():
         eq = os.path.join(out_dir, f"equiv_{i}.py")
         if not os.path.exists(eq):
             continue
-        rec = {"id": f"{pid}-b{i}", "property": pid}
+        rec = {"id": f"{pid}-{tagc}{i}", "property": pid}
         sh(f"git -C {wt} checkout -q -- .")
         r0 = sh(f"cd {out_dir} && {PY} equiv_{i}.py --record", timeout=900)
         rec["record_rc"] = r0.returncode
